@@ -84,8 +84,20 @@ theorem exprOK_succ {S : Sem ν} {P : Prog ν} {T : Table ν} {G : List (List Na
             cases hfn : assocLast x ρ.static.fnNames with
             | none => simp [hfn] at hv
             | some foreign =>
-              simp [hfn] at hv hcomp; subst hv
-              exact loadConst_ok (c := .fnref foreign x) hcomp hcode hpos hconst
+              cases foreign with
+              | true =>
+                simp [hfn] at hv hcomp; subst hv
+                exact loadConst_ok (c := .fnref true x 0) hcomp hcode hpos hconst
+              | false =>
+                simp only [hfn] at hv hcomp
+                rw [hctx.chunks, List.map_take] at hcomp
+                simp only [Bool.false_eq_true, if_false] at hcomp
+                cases hidx : lastIdx (fun n => n == x) ("<main>" :: List.take ρ.static.nfuns (List.map (fun c => c.decl.name) T.funs)) with
+                | none => simp [hidx] at hv
+                | some idx =>
+                  simp only [hidx] at hv hcomp
+                  injection hv with hv; subst hv
+                  exact loadConst_ok (c := .fnref false x idx) hcomp hcode hpos hconst
     · intro err herr
       simp only [eval, lookupIdent] at herr
       split at herr
@@ -94,7 +106,10 @@ theorem exprOK_succ {S : Sem ν} {P : Prog ν} {T : Table ν} {G : List (List Na
         · cases herr
         · split at herr
           · split at herr <;> cases herr
-          · split at herr <;> cases herr
+          · split at herr
+            · cases herr
+            · split at herr <;> cases herr
+            · cases herr
   | neg e =>
     intro ρ cs cs' frag m f fs hcomp hcode hlt hfit hctx hpos hconst hlay hlast
     simp only [compileExpr, Res.bind_eq_ok] at hcomp
